@@ -159,6 +159,9 @@ pub fn check_case(body: &[u8], filters: &[FilterSpec], headers: &Headers, stats:
     }
     let class = if std::str::from_utf8(body).is_ok() { "valid-utf8-input" } else { "invalid-utf8-input" };
     let mut res: Vec<(String, String, Vec<usize>)> = Vec::new();
+    if ex.capped && ex.finals.values().all(|_| true) && ex.finals.iter().all(|(out, _)| check_output(body, relation, out).is_none()) {
+        res.push(("state-explosion".to_string(), format!("more than {} distinct filter states for one body: state merging no longer applies (opaque or diverging state); input {:?}", crate::engines::chunk::MAX_STATES_PER_CASE, String::from_utf8_lossy(body)), vec![]));
+    }
     for (out, hist) in &ex.finals {
         if let Some((kind, why)) = check_output(body, relation, out) {
             let chunks = hist.iter().filter(|k| **k > 0).count();
@@ -254,7 +257,7 @@ pub fn cases(tier: Tier) -> Vec<Case> {
         }
     }
     // byte faults and truncation at every byte
-    let fault_bodies = tier.pick(6, curated.len());
+    let fault_bodies = tier.pick(5, curated.len());
     // index 10 = append[html,body]+replace[div]: two HTML stages that can both hold bytes
     let two_html = fl.iter().position(|(n, _)| *n == "append[html,body]+replace[div]").unwrap_or(0);
     let fault_filters: Vec<usize> = tier.pick(vec![0, 1, 3, two_html], (0..fl.len()).collect());
@@ -313,6 +316,11 @@ pub fn run(tier: Tier) -> i32 {
             Err((loc, msg)) => vec![(format!("panic:{loc}"), format!("the filter chain panicked at {loc}: {msg}; body {:?}", String::from_utf8_lossy(&c.body)), vec![])],
         };
         for (sig, what, hist) in checked {
+            if sig == "state-explosion" {
+                // not a verdict: the exploration of this case is incomplete
+                ctx.set_capped(what);
+                continue;
+            }
             ctx.report(Violation {
                 signature: sig,
                 what: format!("filters {}: {}", c.name, what),
